@@ -259,6 +259,7 @@ type Run struct {
 	decided      map[int]bool
 	naux         int
 	stamp        int
+	maxPreempt   int
 }
 
 func (r *Run) freshAux(name string, s Sort) *Term {
